@@ -1034,6 +1034,8 @@ func TestVerifC03(t *testing.T) {
 		switch {
 		case strings.HasPrefix(line, "pull "):
 			c3RunCase(t, out, c3Parse(line))
+		case strings.HasPrefix(line, "pull2 "):
+			c3TwoCase(t, out, c3ParseTwo(line))
 		case strings.HasPrefix(line, "big "):
 			c3BigCase(t, out, line)
 		case strings.HasPrefix(line, "challenge "):
@@ -1093,6 +1095,8 @@ func TestVerifC03(t *testing.T) {
 	for i := 0; i < zzverif.EnvInt("VERIF_N", 300); i++ {
 		c3RunCase(t, out, c3Random(rr.Fork()))
 	}
+	// 3b. two overlapping pulls sharing a layer
+	c3TwoCases(root.Fork(), zzverif.EnvInt("VERIF_NTWO", 40), func(w *c3Two) { c3TwoCase(t, out, w) })
 	// 4. resume from real multi-part state (>= 11 parts, > 1 GB virtual blob)
 	if zzverif.EnvInt("VERIF_NBIG", 1) > 0 {
 		for _, l := range c3BigLines(root.Fork(), os.Getenv("VERIF_TIER") == "thorough") {
@@ -1213,6 +1217,7 @@ func c3ProbeFixed() bool {
 //
 //	1 getValue checks its bounds (F5)            2 downloadBlob rejects "" (C03-emptydigest)
 //	4 a digest listed twice is still verified     8 a fresh layer is verified before the next one is fetched (F6)
+//	16 the transfer verifies -partial before renaming it (C03-verifywindow)
 var c3Variant int
 
 func c3ProbeRun(t *testing.T, c *c3Case) string {
@@ -1257,6 +1262,24 @@ func c3ProbeVariant(t *testing.T) {
 		c.attempts = []c3Attempt{{ls: []c3LScript{{dig: dA, chunks: [][]c3Chunk{{{src: "flip", flip: 3, cut: -1, end: "eof"}}}}}}}
 		if c3ProbeRun(t, c) == "err:digest-mismatch" {
 			v |= 4
+		}
+	}
+	// corrupt single layer: does the pull still announce "verifying sha256 digest" (blob renamed, then verified), or does
+	// the transfer itself fail with the digest mismatch before anything is renamed (C03-verifywindow repaired)?
+	{
+		c := c3NewCase("probe")
+		dA := c.addLayer(A, false)
+		c.attempts = []c3Attempt{{ls: []c3LScript{{dig: dA, chunks: [][]c3Chunk{{{src: "flip", flip: 3, cut: -1, end: "eof"}}}}}}}
+		c.fixUniv()
+		models := filepath.Join(t.TempDir(), "models")
+		c3Materialise(c, models)
+		res := c3RunAttempt(t, c, &c.attempts[0], models, "")
+		announced := false
+		for _, s := range res.statuses {
+			announced = announced || s == "verifying sha256 digest"
+		}
+		if res.class == "err:digest-mismatch" && !announced {
+			v |= 16
 		}
 	}
 	c3Variant = v
